@@ -33,6 +33,7 @@ func runC14(r *engine.Run) {
 	r.Rule("AGREE-fieldset", "for LeafNode, FullNode and ExtensionNode: every field the private encode reads has a buffer write that depends on it (it is persisted and hashed); Decode assigns exactly those fields; CloneNode (the copy the memory store keeps) sets each of them and the origin tracker. Accessor methods (GetValue/SetValue, GetChild/PutChild, ...) count as uses of the field they stand for")
 	r.Rule("AGREE-hash", "see C02: the node hash is RawHash(little-endian origin || the node's persisted fields) computed from the node's current content on every call (a memoised hash survives a change of origin)")
 	r.Rule("DOM-size", "see C01: Insert stores a private snapshot of the marshalled value")
+	r.Rule("CLONE-deep", "see C07: Clone() of every node type is a deep copy (the codec round trip), never a value that shares path/key/value memory with the receiver - FRESH-node treats Clone() results as fresh, and an in-place append onto a shallow copy writes into the store's object")
 	r.NotDec = append(r.NotDec, "byte-exact round trip for every value (value-level)")
 	orderStamp(r, "KEY-own-hash")
 	keyOwnHash(r)
@@ -48,6 +49,7 @@ func runC14(r *engine.Run) {
 	orderKeySave(r)
 	agreeHash(r, "AGREE-hash")
 	domSize(r)
+	cloneDeep(r)
 }
 
 func keyOwnHash(r *engine.Run) {
@@ -183,31 +185,65 @@ func agreeTypeCode(r *engine.Run) {
 		return false
 	})
 	code2type := map[string]string{}
-	ast.Inspect(c.Body, func(n ast.Node) bool {
-		sw, ok := n.(*ast.SwitchStmt)
-		if !ok || sw.Tag == nil {
-			return true
-		}
-		for _, cl := range sw.Body.List {
-			cc := cl.(*ast.CaseClause)
-			for _, ce := range cc.List {
-				tv, ok := ci.Types[ce]
-				if !ok || tv.Value == nil {
-					continue
-				}
-				for _, st := range cc.Body {
-					as, ok := st.(*ast.AssignStmt)
-					if !ok || len(as.Rhs) != 1 {
+	scan := func(body *ast.BlockStmt) {
+		ast.Inspect(body, func(n ast.Node) bool {
+			sw, ok := n.(*ast.SwitchStmt)
+			if !ok || sw.Tag == nil {
+				return true
+			}
+			for _, cl := range sw.Body.List {
+				cc := cl.(*ast.CaseClause)
+				for _, ce := range cc.List {
+					tv, ok := ci.Types[ce]
+					if !ok || tv.Value == nil {
 						continue
 					}
-					if tn := namedOf(ci.TypeOf(as.Rhs[0])); tn != nil {
-						code2type[tv.Value.ExactString()] = tn.Obj().Name()
+					for _, st := range cc.Body {
+						var e ast.Expr
+						switch x := st.(type) {
+						case *ast.AssignStmt:
+							if len(x.Rhs) == 1 {
+								e = x.Rhs[0]
+							}
+						case *ast.ReturnStmt:
+							if len(x.Results) >= 1 {
+								e = x.Results[0]
+							}
+						}
+						if e == nil {
+							continue
+						}
+						if tn := namedOf(ci.TypeOf(e)); tn != nil {
+							code2type[tv.Value.ExactString()] = tn.Obj().Name()
+						}
 					}
 				}
 			}
-		}
-		return false
-	})
+			return false
+		})
+	}
+	scan(c.Body)
+	if len(code2type) == 0 {
+		// the dispatch moved into a helper of the same package that CreateNode calls
+		ast.Inspect(c.Body, func(n ast.Node) bool {
+			call, ok := n.(*ast.CallExpr)
+			if !ok {
+				return true
+			}
+			id, ok := call.Fun.(*ast.Ident)
+			if !ok {
+				return true
+			}
+			fo, ok := ci.Uses[id].(*types.Func)
+			if !ok || fo.Pkg() == nil || !strings.HasSuffix(fo.Pkg().Path(), pkgUtil) {
+				return true
+			}
+			if h, _ := findFuncDecl(r, pkgUtil, "", fo.Name()); h != nil && h.Body != nil && len(code2type) == 0 {
+				scan(h.Body)
+			}
+			return true
+		})
+	}
 	var names []string
 	for k := range type2code {
 		names = append(names, k)
